@@ -53,7 +53,9 @@ func errClass(err error) string {
 	return string(out)
 }
 
-func compressible(op byte) bool { return op != ref.OpStartup && op != ref.OpOptions && op != ref.OpReady }
+func compressible(op byte) bool {
+	return op != ref.OpStartup && op != ref.OpOptions && op != ref.OpReady
+}
 
 func run(c *mon.Ctx) {
 	c.Rule = "cases = exhaustive enumeration of optional-field shapes per (message kind, version) x value draws + all 8 frame-flag combinations per (kind, version) + PRNG frames, each under codecs {none, LZ4, Snappy}; distinct = distinct (kind, version, shape, flags, value-class vector, compression); non-trivial = the frame encoded and was decoded and compared"
